@@ -29,6 +29,47 @@ def challengeDigits (xof : List UInt8 → Nat → List UInt8) (nwords iters : Na
 def hashToChallenge (xof : List UInt8 → Nat → List UInt8) (nwords iters : Nat) (j1enc j2enc msg : List UInt8) : Nat × Nat :=
   (1, leNat (challengeDigits xof nwords iters j1enc j2enc msg))
 
+/-! ### the call sequence as data (target of tools/translate/challenge.py) -/
+inductive Curve | com | pk
+deriving DecidableEq, Repr
+inductive Src | j (c : Curve) | msg
+deriving DecidableEq, Repr
+
+/-- `hash_to_challenge` as extracted: sizes in units of (FP2_ENCODED_BYTES, length) -/
+structure Script where
+  bufFp2 : Nat
+  bufLen : Nat
+  /-- writes into `buf` in program order: offset (in FP2_ENCODED_BYTES units) and source -/
+  writes : List (Nat × Src)
+  hashInFp2 : Nat
+  hashInLen : Nat
+  iterated : Bool
+  scalar0 : Nat
+  scalar1Init : Nat
+deriving DecidableEq, Repr
+
+/-- overwrite `bytes` at offset `off` (fp2_encode / memcpy into the buffer) -/
+def writeAt (buf : List UInt8) (off : Nat) (bytes : List UInt8) : List UInt8 :=
+  buf.take off ++ bytes ++ buf.drop (off + bytes.length)
+
+/-- run the extracted call sequence: `w` = FP2_ENCODED_BYTES, `iterCount` = SQIsign2D_heuristic_challenge_hash_iteration -/
+def Script.run (s : Script) (xof : List UInt8 → Nat → List UInt8) (w nwords iterCount : Nat)
+    (jcom jpk msg : List UInt8) : Nat × Nat :=
+  let buf0 := List.replicate (s.bufFp2 * w + s.bufLen * msg.length) (0 : UInt8)
+  let buf := s.writes.foldl (fun b (x : Nat × Src) => writeAt b (x.1 * w) (match x.2 with
+    | .j .com => jcom
+    | .j .pk => jpk
+    | .msg => msg)) buf0
+  let inp := buf.take (s.hashInFp2 * w + s.hashInLen * msg.length)
+  let d := xof inp (8 * nwords)
+  let d := if s.iterated then iter (fun d => xof d (8 * nwords)) iterCount d else d
+  (s.scalar0, leNat d)
+
+/-- the sequence the model `hashToChallenge` describes -/
+def expectedScript (iterated : Bool) : Script :=
+  { bufFp2 := 2, bufLen := 1, writes := [(0, .j .com), (1, .j .pk), (2, .msg)], hashInFp2 := 2, hashInLen := 1,
+    iterated := iterated, scalar0 := 1, scalar1Init := 1 }
+
 /-- `sqisign_secure_clear(mem, size)` / the clearing part of `sqisign_secure_free`: memset(mem, 0, size) on a
     buffer `buf` of which the first `size` bytes are handed in -/
 def secureClear (buf : List UInt8) (size : Nat) : List UInt8 := List.replicate (min size buf.length) 0 ++ buf.drop size
